@@ -94,9 +94,17 @@ def check_run(ctx, case):
     cfg = case["cfg"]
     st = cfg["strategy"]
     s, eo, f = dc.build(cfg, case["comps"], case["ref"])
-    log = dc.instrument(s, f)
     lmin, lmax = lmins(cfg)
     tol, mx, mn = case["tol"], case["max"], case["min"]
+    if case.get("reuse"):
+        # history: an earlier, larger run on the same operation / integrand objects; the run under test is a fresh strategy instance on them.
+        # Its reported point counts must count the points of THIS run (the integrand's bookkeeping of the oracle is reset, the library must
+        # reset its own).
+        with ctx.guard("B.stop.first", S_LOOP, cfg["strategy"] + "-raises"):
+            dc.run_adaptive(s, eo, lmin, lmax, -1.0, case["reuse"], 1)
+        s, eo, f = dc.build(cfg, case["comps"], case["ref"], reuse=(s.operation, f))
+        f.seen = set()
+    log = dc.instrument(s, f)
     r = None
     with ctx.guard("B.stop.first", S_LOOP, st + "-raises"):
         r = dc.run_adaptive(s, eo, lmin, lmax, tol, mx, mn)
@@ -254,6 +262,8 @@ def run(ctx):
                     continue
                 seen_limits.add((tol, mx, mn))
                 case = dict(base, kind="run", tol=tol, max=mx, min=mn)
+                if len(seen_limits) == 1 and len(npts) >= 2:
+                    case["reuse"] = int(npts[-1])     # first limit set of every configuration: preceded by a larger run on the same objects
                 ctx.case(case, nontrivial=True)
                 why = check_run(ctx, case)
                 stats[why] = stats.get(why, 0) + 1
